@@ -402,7 +402,9 @@ public:
     }
     else {
       _search_start = Support::min(_search_start, released_area_start);
-      _search_end = Support::max(_search_end, released_area_end);
+      // An incremental block has all its free space in [_search_start, _area_size) - its `_search_end` is not
+      // maintained (it's zero once the block has been full), so the search window must extend to the end of the block.
+      _search_end = is_incremental() ? _area_size : Support::max(_search_end, released_area_end);
       clear_flags(kFlagDirty | kFlagIncremental);
 
       if (area_used() == initial_area_start()) {
@@ -435,7 +437,8 @@ public:
     }
     else {
       _search_start = Support::min(_search_start, shrunk_area_start);
-      _search_end = Support::max(_search_end, shrunk_area_end);
+      // See `mark_released_area()` - the window of a block that leaves incremental mode ends at the end of the block.
+      _search_end = is_incremental() ? _area_size : Support::max(_search_end, shrunk_area_end);
 
       clear_flags(kFlagIncremental);
       add_flags(kFlagDirty);
